@@ -40,7 +40,34 @@ type c02X struct {
 	Cls  string `json:"cls"`
 }
 
+// genC02TwoLines: two lines typed one after the other for two Readline calls of the same shell; under the
+// type-ahead schedules the second line (or its beginning) arrives in the read that carries the first Return.
+func genC02TwoLines(g *Gen) *wire.Scenario {
+	mode := Pick(g, []string{"emacs", "vi"})
+	sc := &wire.Scenario{Prop: "C02", Family: "type-two-lines"}
+	sc.Env = wire.Env{Mode: mode, Prompt: Pick(g, []string{"> ", "$ "}), W: Pick(g, []int{20, 80, 120}), H: g.Range(8, 40)}
+	var texts []string
+	for l := 0; l < 2; l++ {
+		var rs []rune
+		for i := 0; i < g.Range(1, 16); i++ {
+			rs = append(rs, rune(g.Range(32, 126)))
+		}
+		texts = append(texts, string(rs))
+		for _, r := range rs {
+			sc.Script = append(sc.Script, tok(string(r), "self-insert"))
+		}
+		sc.Script = append(sc.Script, tok("\r", "accept-line"))
+	}
+	sc.X = mustJSON(c02X{Text: texts[0] + "\n" + texts[1], Cls: "ascii"})
+	sc.Plan = wire.Plan{Policy: "seeded", Class: "S1", Paste: true, Seed: g.Seed()}
+	sc.Plans = []wire.Plan{{Policy: "seeded", Class: "S2", Seed: g.Seed()}, {Policy: "seeded", Class: "S2", Seed: g.Seed()}}
+	return sc
+}
+
 func genC02(g *Gen, tier string, idx int) *wire.Scenario {
+	if idx%8 == 7 {
+		return genC02TwoLines(g)
+	}
 	mode := Pick(g, []string{"emacs", "vi"})
 	sc := &wire.Scenario{Prop: "C02", Family: "type"}
 	env := wire.Env{Mode: mode, Prompt: Pick(g, []string{"> ", "", "$ ", "prompt> "})}
@@ -104,6 +131,36 @@ func execC02(x *Ctx, sc *wire.Scenario) *wire.Result {
 	res := okResult(sc)
 	var xx c02X
 	jsonInto(sc.X, &xx)
+	if sc.Family == "type-two-lines" {
+		want := strings.SplitN(xx.Text, "\n", 2)
+		hooks := sim.Hooks{Body: func(s *sim.Session, sh *readlineShell) {
+			s.Readline(sh)
+			s.Readline(sh)
+		}}
+		res.Nontrivial = true
+		plans := append([]wire.Plan{{Policy: "canonical", Class: "S0"}, sc.Plan}, sc.Plans...)
+		for pi, p := range plans {
+			out := runSession(x, sc, p, hooks, false)
+			absorb(res, out)
+			if crashOracle(res, out, "C02") {
+				return res
+			}
+			label := []string{"slow typist", "chunked at waits", "type-ahead", "type-ahead"}[pi%4]
+			got := []string{}
+			for _, r := range out.Returns {
+				got = append(got, r.Line+"|"+r.Err)
+			}
+			if len(want) == 2 && (len(out.Returns) != 2 || out.Returns[0].Line != want[0] || out.Returns[1].Line != want[1] || out.Returns[0].Err != "" || out.Returns[1].Err != "") {
+				sig := "identity:ascii:two-lines"
+				if pi >= 2 {
+					sig += ":type-ahead"
+				}
+				return violation(res, "MISMATCH", "C02.identity-two-calls", sig,
+					fmt.Sprintf("[%s] two lines typed for two Readline calls, %q Return %q Return: the calls returned %q (end=%s)", label, want[0], want[1], got, out.End))
+			}
+		}
+		return res
+	}
 	text := []rune(xx.Text)
 	check := func(out *sim.Outcome, label string) (string, bool) {
 		for i := range out.Waits {
@@ -619,9 +676,56 @@ func genC06ViRegisters(g *Gen) *wire.Scenario {
 	return sc
 }
 
+// genC06Region: an explicit region (mark set, point moved, exchange-point-and-mark), kept active while the
+// buffer shrinks under it (deletions, a shorter history line, undo), then the commands that use the region.
+func genC06Region(g *Gen) *wire.Scenario {
+	sc := &wire.Scenario{Prop: "C06", Family: "edit-region"}
+	env := wire.Env{Mode: "emacs", Prompt: "> ", W: 80, H: 24, NoDefaultHistory: true}
+	env.History = []wire.HistSrc{{Kind: "memory", Name: "h0", Entries: []string{"ls -l", "x", "echo a longer line of history"}}}
+	env.Binds = g.Cat.Extra
+	sc.Env = env
+	km := "emacs"
+	add := func(cmd string) {
+		if seq := g.Cat.ShortSeqFor(km, cmd); seq != "" {
+			sc.Script = append(sc.Script, tok(seq, cmd))
+		}
+	}
+	text := Pick(g, []string{"echo hello world", "a b c d e f", "héllo", "one two", "x"})
+	for _, r := range text {
+		if r < 0x80 {
+			sc.Script = append(sc.Script, tok(string(r), "self-insert"))
+		}
+	}
+	for i := 0; i < g.N(8); i++ {
+		add(Pick(g, []string{"backward-char", "backward-char", "backward-word", "beginning-of-line"}))
+	}
+	add("set-mark")
+	for i := 0; i < g.Range(1, 8); i++ {
+		add(Pick(g, []string{"forward-char", "forward-char", "forward-word", "end-of-line", "backward-char"}))
+	}
+	add("exchange-point-and-mark")
+	if g.P(30) {
+		add("exchange-point-and-mark")
+	}
+	for i := 0; i < g.Range(1, 10); i++ {
+		add(Pick(g, []string{"delete-char", "delete-char", "delete-char", "backward-delete-char", "previous-history", "next-history", "undo", "forward-char", "end-of-line"}))
+	}
+	for i := 0; i < g.N(3); i++ {
+		add(Pick(g, []string{"copy-region-as-kill", "kill-region", "exchange-point-and-mark", "yank", "delete-char"}))
+	}
+	if g.P(60) {
+		sc.Script = append(sc.Script, tok("\r", "accept-line"))
+	}
+	sc.Plan = wire.Plan{Policy: "canonical", Class: "S0"}
+	return sc
+}
+
 func genC06(g *Gen, tier string, idx int) *wire.Scenario {
 	if idx%10 == 9 {
 		return genC06ViRegisters(g)
+	}
+	if idx%20 == 8 {
+		return genC06Region(g)
 	}
 	mode := "emacs"
 	if g.P(55) {
